@@ -14,6 +14,12 @@ claimed = {
  'C02': ("exhaustive byte decision tables (abstract evaluation of each comparison tree over all 256 byte values) + guard dominance + state-transition relation extraction + per-line reinitialisation table",
          "The lexer's dispatch tables (name normalisation, type, attribute introducers, event keys, priority/alert words) equal the documented grammar for every byte value; name/value/rate stores are dominated by their well-formedness guards (non-empty name, ParseFloat ok, not NaN, rate > 0 and finite); tags are non-empty and delimiter-free by construction; accept exits and the transition relation are the documented chain; Run re-initialises every per-line field.",
          "does not decide acceptance of exactly the grammar on all strings (offset arithmetic); documented tables are frozen in checker/c02.go; anchors by state-function name."),
+ 'C03': ("panic-obligation enumeration over the ingestion call-graph scope + abstract interpretation with a relational numeric domain queried at obligation points: wrap-aware linearisation of SSA definitions, dominating branch facts, length facts, memory versioning, Houdini loop invariants, join case-splitting, library models and named lemmas, decided by Fourier-Motzkin refutation; plus HTTP status path counting",
+         "Every index / slice / make / unchecked assertion / integer division / nested-map write / explicit abort reachable from the receiver, parser (lexer states, synchronous handler chain) and the two HTTP handlers is discharged or the check fails; header lengths are compared after widening; each request path writes exactly one status. Assumptions (lexer object invariant with its witnesses, line <= 65535 bytes, library contracts, configuration >= 1) are listed in the evidence.",
+         "nil dereferences, closed-channel sends, memory exhaustion and liveness are not covered; third-party code trusted; the lexer invariant is assumed at entries/loop heads/after helper calls (Stage A) with establishment and preservation witnesses."),
+ 'C04': ("the same obligation engine (linear facts + Fourier-Motzkin + Houdini invariants + preconditions checked at call sites) over the flush scope: aggregator Flush/Process/Reset, histogram helpers, flusher, all nine backends' SendMetricsAsync and everything they call in the module",
+         "All 120+ panic obligations of the flush path are discharged for every configuration in the quantifier (|p| <= 100 as lemma L1, histogram limit >= 0, persisted idle series via 'len >= 0 unless guarded'); preconditions such as 'bucket map non-empty' are proved at every call site.",
+         "third-party encoders trusted; nil dereferences not enumerated; numerical results not decided; lemma L11 (+Inf bucket present and last) is a stated data-structure lemma."),
  'C05': ("type-reachability (no []byte/unsafe reachable from outputs) + ordering/dominance on the parser loop + value provenance of the tag buffer + constructor copy rule",
          "The no-aliasing clause is decided for every input by types (no reachable type can hold a byte buffer, no unsafe); tag buffers never alias earlier lines' tags; New* constructors copy tags; the datagram buffer is released after parsing; one parse per line with bad-line accounting; timestamps/sources/host-tag handling; equal-timestamp gauge lines resolve to the later line.",
          "'datagram = concatenation of its lines' as an equation is not decided; go/types."),
